@@ -214,27 +214,56 @@ pub fn run(args: &Args) -> i32 {
             }
         }
     }
-    let scratches: Vec<Scratch> = (0..engine::workers()).map(|_| Scratch::new("c03")).collect();
-    engine::par_for(items.len(), args.seed, |wi, i| {
+    // The subject can abort the process (a crash image may make it request an absurd
+    // allocation), so the items run in worker processes; a worker that dies is charged to
+    // the item it was processing.
+    let flush_counts = |report: &Report| {
+        report.set("evaluations", json!(opens.load(Ordering::SeqCst)));
+        report.set("distinct_nontrivial", json!(distinct_images.len()));
+        report.set("crash_images", json!(images.load(Ordering::SeqCst)));
+        report.set("steps_under_crash", json!(steps_run.load(Ordering::SeqCst)));
+        report.set("distinct_step_results", json!(outcomes.len()));
+        if !c02 {
+            report.set("images_equal_to_state_before", json!(saw_before.load(Ordering::SeqCst)));
+            report.set("images_equal_to_state_after", json!(saw_after.load(Ordering::SeqCst)));
+        }
+    };
+    if let Some(ctl) = engine::child_ctl(args) {
+        let scratch = Scratch::new("c03");
+        for i in ctl.items(items.len()) {
+            ctl.mark(i);
+            let (rv, b, p, l) = &items[i];
+            check(*b, p, l, *rv, &scratch, None);
+            flush_counts(&report);
+            report.export_to(&ctl.out);
+        }
+        flush_counts(&report);
+        report.export_to(&ctl.out);
+        return 0;
+    }
+    engine::run_children(args, items.len(), &report, &|i, status| {
         let (rv, b, p, l) = &items[i];
-        check(*b, p, l, *rv, &scratches[wi], None);
+        let last_name = match l {
+            Last::H(k) => w.alpha[*k].0.to_string(),
+            other => format!("{other:?}").to_lowercase(),
+        };
+        let kind = match l {
+            Last::H(k) => w.alpha[*k].1.kind(),
+            other => format!("{other:?}").to_lowercase(),
+        };
+        report.violation(
+            &format!("step={kind}|process-died"),
+            &format!("the process died ({status}) while crash images of `{last_name}` were being reopened: abort / failed enormous allocation / stack overflow"),
+            w.replay_json(*b, p, json!({"last": last_name, "run_variant": rv.name()})),
+        );
     });
     report.sample(json!({"history": w.replay_json(items[3].1, &items[3].2, json!(null)), "last_step": format!("{:?}", items[3].3), "crash": "after every prefix of its file-system calls"}));
-    report.set("evaluations", json!(opens.load(Ordering::SeqCst)));
-    report.set("distinct_nontrivial", json!(distinct_images.len()));
-    report.set("crash_images", json!(images.load(Ordering::SeqCst)));
-    report.set("steps_under_crash", json!(steps_run.load(Ordering::SeqCst)));
     report.set("history_depth", json!(depth));
     report.set("run_variants", json!(run_variants.iter().map(|v| v.name()).collect::<Vec<_>>()));
     report.set("open_variants", json!(open_variants.iter().map(|v| v.name()).collect::<Vec<_>>()));
     report.set("torn_last_call", json!(tears));
-    report.set("distinct_step_results", json!(outcomes.len()));
-    if !c02 {
-        report.set("images_equal_to_state_before", json!(saw_before.load(Ordering::SeqCst)));
-        report.set("images_equal_to_state_after", json!(saw_after.load(Ordering::SeqCst)));
-    }
     report.set("exhaustive", json!(true));
-    report.set("rule", json!("every history of <= depth steps over H (+ close, optimize_storage, shrink_to_fit as last step) from 4 base states; crash points = every prefix of the file-system calls of the last step (thorough: plus 3 byte-prefixes of the interrupted write); each distinct (data, log) image is reopened with the listed variants and fully dumped. distinct_nontrivial = distinct crash images. C02: open + full read succeed, no panic, no allocation >= 256 MiB. C03: dump equals the live database's own dump before or after the step."));
+    report.set("rule", json!("every history of <= depth steps over H (+ close, optimize_storage, shrink_to_fit as last step) from 5 base states; crash points = every prefix of the file-system calls of the last step (thorough: plus 3 byte-prefixes of the interrupted write); each distinct (data, log) image is reopened with the listed variants and fully dumped. distinct_nontrivial = distinct crash images. C02: open + full read succeed, no panic, no allocation >= 256 MiB. C03: dump equals the live database's own dump before or after the step."));
     report.assume("crash model: prefix of the process's file-system calls (process death; the code never syncs)");
     report.finish()
 }
